@@ -873,6 +873,7 @@ func (s *Service) runPipeline(ctx context.Context, rp *runnablePipeline) error {
 				}
 				e.Str(log.NodeIDField, node.ID()).Msg("node stopped")
 			}()
+			defer verifhook.At("lifecycle.node-done:" + node.ID())
 			defer nodesWg.Done()
 
 			err := node.Run(ctx)
